@@ -24,6 +24,9 @@ for fn in files:
 e = idx.setdefault(prop, {"modules": [], "theorems": [], "modelled": "", "assumptions": [], "open": []})
 e["modules"] = ["Fcgi.Props." + f for f in files]
 e["theorems"] = names
+short = [n.split(".")[-1] for n in names]
+# a `_full` statement is open unless it was proved (`<name>_holds`) or refuted as over-strong (`<name>_false`, with its `_partial`)
+opens = [o for o in opens if (o.split(".")[-1] + "_holds") not in short and (o.split(".")[-1] + "_false") not in short]
 e["open"] = opens
 json.dump(idx, open(os.path.join(ROOT, "obligations.json"), "w"), indent=1)
 print(prop, len(names), "theorems;", len(opens), "open statements", opens)
